@@ -381,6 +381,15 @@ pub fn gen_c10(g: &mut Gen, tier: &str) {
 pub fn gen_c15(g: &mut Gen, tier: &str) {
     let n = if tier == "thorough" { 120_000 } else { 4_000 };
     crate::c01::generate_triples(g, n);
+    // every constructor at both ends of its argument type and around its documented range
+    for s in [-86_401i128, -86_400, -86_399, -1, 0, 1, 86_399, 86_400, 86_401, i32::MIN as i128, i32::MIN as i128 + 1, i32::MAX as i128, i32::MAX as i128 - 1] {
+        g.push(true, Input::new("offset_from_seconds", vec![s]));
+    }
+    for h in [-24i128, -23, -1, 0, 1, 23, 24, i32::MIN as i128, i32::MAX as i128] { for m in [0i128, 59, 60, U32M] { for s in [0i128, 59, 60, U32M] {
+        g.push(true, Input::new("offset_from_hms", vec![h, m, s]));
+    } } }
+    for s in [0i128, 1, 86_399, 86_400, 86_401, (1 << 31), U32M] { g.push(true, Input::new("time_ctor", vec![1, s])); }
+    for x in [0i128, 1, NPD - 1, NPD, NPD + 1, (1i128 << 63), u64::MAX as i128] { g.push(true, Input::new("time_ctor", vec![2, x])); }
     let bh: [i128; 9] = [0, 1, 22, 23, 24, 59, 60, (1 << 31), U32M];
     for h in bh { for m in [0i128, 59, 60, U32M] { for s in [0i128, 59, 60, U32M] {
         g.push(true, Input::new("dt_from_hms", vec![h, m, s]));
